@@ -79,7 +79,7 @@ Proof. exact notes_simulation. Qed.
 
 (* Compile.run_source on the printed program, GIVEN the (tested) lexer link for this program *)
 Theorem C03_run_source : forall (p : list cmd) (ls : lexstate), wf_prog p = true ->
-  lex (mkLex 96 [] init_vars Sakura.Gen.VarRows.rhythm_rows) (pprog p) 0 = Ok (top_tokens p, ls) -> lx_timebase ls = 96 ->
+  lex (mkLex 96 [] init_vars Sakura.Gen.VarRows.rhythm_rows false) (pprog p) 0 = Ok (top_tokens p, ls) -> lx_timebase ls = 96 ->
   (prog_depth p <= length (pprog p))%nat -> (fuel_of p <= STEPS)%nat ->
   exists s, run_source (pprog p) = Ok s /\ R s (denote_prog p).
 Proof. exact run_source_simulation. Qed.
@@ -166,7 +166,7 @@ Qed.
 (* the hypotheses of C03_run_source hold for it: the whole front half of compile() on the source text *)
 Example C03_example_source : exists s, run_source (pprog ex_prog) = Ok s /\ R s (denote_prog ex_prog).
 Proof.
-  assert (Hl : exists ls, lex (mkLex 96 [] init_vars Sakura.Gen.VarRows.rhythm_rows) (pprog ex_prog) 0 = Ok (top_tokens ex_prog, ls)
+  assert (Hl : exists ls, lex (mkLex 96 [] init_vars Sakura.Gen.VarRows.rhythm_rows false) (pprog ex_prog) 0 = Ok (top_tokens ex_prog, ls)
                           /\ lx_timebase ls = 96).
   { eexists. split; [vm_compute; reflexivity|reflexivity]. }
   destruct Hl as (ls & Hl & Htb).
